@@ -1,0 +1,28 @@
+//go:build verif
+
+/*
+SPDX-License-Identifier: Apache-2.0
+*/
+
+package messagepickup
+
+import "github.com/hyperledger/aries-framework-go/pkg/didcomm/common/service"
+
+// VerifHandleAllSync runs, synchronously, exactly the handler HandleInbound would start in a goroutine for
+// msg — for every message type the service accepts — so that a verification harness can observe the result.
+func (s *Service) VerifHandleAllSync(msg service.DIDCommMsg, myDID, theirDID string) error {
+	switch msg.Type() {
+	case StatusMsgType:
+		return s.handleStatus(msg)
+	case StatusRequestMsgType:
+		return s.handleStatusRequest(msg, myDID, theirDID)
+	case BatchPickupMsgType:
+		return s.handleBatchPickup(msg, myDID, theirDID)
+	case BatchMsgType:
+		return s.handleBatch(msg)
+	case NoopMsgType:
+		return s.handleNoop(msg)
+	}
+
+	return nil
+}
